@@ -70,37 +70,39 @@ func (b *BoundedIterator) SeekToFirst() {
 
 // SeekToLast positions at the last key in the bounded range
 func (b *BoundedIterator) SeekToLast() {
-	if b.end != nil {
-		// If we have an end bound, seek to it
-		// The current implementation might not be efficient for finding the last
-		// key before the end bound, but it works for now
-		b.Iterator.Seek(b.end)
-
-		// If we landed exactly at the end bound, back up one
-		if b.Iterator.Valid() && bytes.Equal(b.Iterator.Key(), b.end) {
-			// We need to back up because end is exclusive
-			// This is inefficient but correct
-			b.Iterator.SeekToFirst()
-
-			// Scan to find the last key before the end bound
-			var lastKey []byte
-			for b.Iterator.Valid() && bytes.Compare(b.Iterator.Key(), b.end) < 0 {
-				lastKey = b.Iterator.Key()
-				b.Iterator.Next()
-			}
-
-			if lastKey != nil {
-				b.Iterator.Seek(lastKey)
-			} else {
-				// No keys before the end bound
-				b.Iterator.SeekToFirst()
-				// This will be marked invalid by checkBounds
-			}
-		}
-	} else {
+	if b.end == nil {
 		// No end bound, seek to the last key
 		b.Iterator.SeekToLast()
+
+		// Verify we're within bounds
+		b.checkBounds()
+		return
 	}
+
+	// The wrapped iterator cannot step backwards, so the last key before the
+	// (exclusive) end bound is found by walking the range from its beginning.
+	// (Seeking to the end bound only helps when that exact key exists: if the
+	// first key >= end is a different key, or there is none, the keys in front
+	// of it were not found.)
+	if b.start != nil {
+		b.Iterator.Seek(b.start)
+	} else {
+		b.Iterator.SeekToFirst()
+	}
+
+	var lastKey []byte
+	for b.Iterator.Valid() && bytes.Compare(b.Iterator.Key(), b.end) < 0 {
+		lastKey = append(lastKey[:0], b.Iterator.Key()...)
+		if !b.Iterator.Next() {
+			break
+		}
+	}
+
+	if lastKey != nil {
+		b.Iterator.Seek(lastKey)
+	}
+	// Otherwise no key lies in the range: the iterator is exhausted or on a
+	// key >= end, which checkBounds reports as invalid
 
 	// Verify we're within bounds
 	b.checkBounds()
